@@ -79,91 +79,96 @@ fn chan_c07(g: &GenCfg) -> BoxedStrategy<Case> {
 pub const PROPS: &[Prop] = &[
     Prop {
         id: "C17",
-        quick: 3000,
+        quick: 6000,
         thorough: 100_000,
         rule: "net family on real kernel sockets under the deterministic scheduler: UnixStream::pair, UnixListener + connect, loopback TcpListener + connect (accept and connect inside the actors), optionally through split() halves, 1-3 connections with payloads of 0-512 KiB written in chunks of 1 B-64 KiB and read with buffers of 1 B-128 KiB (at most ~300 operations per side) until end of stream; UdpSocket and UnixDatagram with 1-19 datagrams of 1-3 KB; writer/reader each a thread (proxy coroutine path) or a coroutine; 1-3 workers; generated schedule. Non-trivial = at least one pre-emption AND (a writer blocked on a full socket buffer OR datagram transport OR a pre-emption inside src/io/sys/unix). Distinct = distinct hash of (program, config, schedule).",
         units: &[Unit { fam: "net", label: "net", share: 1, strategy: net::strategy_net }],
     },
     Prop {
         id: "C18",
-        quick: 3000,
+        quick: 6000,
         thorough: 100_000,
         rule: "netto family on real kernel sockets: one connection (UnixStream::pair, loopback TCP, or connected UDP) whose reader (thread or coroutine) performs 1-4 reads with generated read time-outs (100 us - 3 s, or none) while the peer sends one byte per read never / early / within a millisecond of the deadline / late, measured from the moment the read began; stale-timer pattern = a read that completes early followed by a longer or untimed one; optionally the reader coroutine is cancelled after a generated delay; 0-2 bystander connections transfer data meanwhile; 1/4 of the cases with stall faults. Non-trivial = at least one pre-emption AND (the previous operation's deadline fell inside the next operation, or data within 1 ms of a deadline, or the reader was cancelled, or both a time-out and a delivery were observed). Distinct = distinct hash of (program, config, schedule).",
         units: &[Unit { fam: "netto", label: "netto", share: 1, strategy: net::strategy_netto }],
     },
     Prop {
         id: "C03",
-        quick: 8000,
+        quick: 16000,
         thorough: 400_000,
         rule: "q_mpsc family on may_queue directly (no runtime): the mpsc block queue with 1-3 producer threads or the spsc block queue with one, 0-40 pushes each, a consumer issuing up to 50 operations out of pop / bulk_pop / peek / len / is_empty, a start offset of 0-130 values pushed and popped beforehand (mostly just below a block boundary), and a final phase that drains the queue or drops it with values left inside; the schedule points are the queue's own atomic operations. Non-trivial = a pop-type operation overlapped a push AND the run crossed a block boundary AND at least one pre-emption. Distinct = distinct hash of (program, schedule).",
         units: &[Unit { fam: "q_mpsc", label: "fifo", share: 1, strategy: queues::strategy_fifo }],
     },
     Prop {
         id: "C04",
-        quick: 8000,
+        quick: 16000,
         thorough: 400_000,
         rule: "q_spmc family on may_queue::spmc directly: the owner runs a generated push / local pop sequence (0-100 operations) and then keeps servicing (filler pushes and pops) until 1-3 stealer threads have finished their steal_into / is_empty sequences (Local/Steal API) or their pop / bulk_pop sequences (raw Queue API); start offset 0-70 mostly just below a block boundary; the child uses a LIFO size-class allocator so that a freed block is re-allocated at the same address (ABA by construction). Non-trivial = at least one successful steal AND a block boundary crossed AND at least one pre-emption. Distinct = distinct hash of (program, schedule).",
         units: &[Unit { fam: "q_spmc", label: "spmc", share: 1, strategy: queues::strategy_spmc }],
     },
     Prop {
         id: "C19",
-        quick: 8000,
+        quick: 16000,
         thorough: 400_000,
         rule: "q_list family on may_queue::mpsc_list_v1 directly: 1-3 producer threads push 0-12 entries each and hand the entry handles to the consumer, which runs up to 40 operations out of pop / pop_if(pred) / peek / remove(handle of a live or of an already consumed entry) / is_empty, as the timer thread does. Non-trivial = at least one pre-emption AND a remove overlapped a push. Distinct = distinct hash of (program, schedule).",
         units: &[Unit { fam: "q_list", label: "list", share: 1, strategy: queues::strategy_list }],
     },
     Prop {
         id: "C15",
-        quick: 6000,
+        quick: 12000,
         thorough: 200_000,
         rule: "local family: three coroutine_local! keys holding drop-counted values with interior mutability; 2-10 coroutines run in waves of 1-3 on a pool of 1-2 stacks (each wave is joined before the next, so stacks are recycled) plus 0-2 threads using the same keys; every coroutine starts with a probing blocking call (fresh Blocker parked for 1 h and unparked, coroutine::park_timeout(1h) and unparked, sleep, or none), then get/set/yield/sleep steps, and ends normally, by a panic, cancelled while parked, or with a park_timeout / Blocker park that expires as its last action; generated schedule. Non-trivial = at least one pre-emption AND >= 2 (coroutine, key) pairs used AND a stack was reused after an abnormal end. Distinct = distinct hash of (program, config, schedule).",
         units: &[Unit { fam: "local", label: "local", share: 1, strategy: local::strategy }],
     },
     Prop {
         id: "C13",
-        quick: 6000,
+        quick: 12000,
         thorough: 200_000,
         rule: "panic family: 3-12 coroutines on a pool of capacity 1-8 (mostly 1-2: stack reuse) with bodies of yield/sleep/Mutex sections/RwLock read and write sections that end in a value or in a panic outside any lock, while holding the Mutex, while holding the RwLock write guard, inside a scoped child, or inside a select arm; optional canceller; 0-4 later coroutines spawned after the first wave was joined; generated schedule. Non-trivial = a panic happened AND at least one pre-emption AND (later coroutines ran afterwards OR more coroutines than pooled stacks). Distinct = distinct hash of (program, config, schedule).",
-        units: &[Unit { fam: "panic", label: "panic", share: 1, strategy: panicf::strategy }],
+        units: &[
+            Unit { fam: "panic", label: "panic", share: 4, strategy: panicf::strategy },
+            // "select owners re-raise it as documented": the cqueue family with its arm panics,
+            // Selector::remove and the arm-panic-must-reach-the-poller oracle
+            Unit { fam: "cqueue", label: "cqueue-arm-panics", share: 1, strategy: cqueue::strategy },
+        ],
     },
     Prop {
         id: "C16",
-        quick: 6000,
+        quick: 12000,
         thorough: 200_000,
         rule: "cqueue family: (a) a poller (thread or coroutine) opens a cqueue scope with 1-4 arms whose top halves are immediate / mpsc recv fed by a feeder / sleep / Semphore::wait, 1-3 events each, optionally panicking in the top or bottom half of the last event; the poller issues 1-6 polls (None or Some(d)) and Selector::remove operations and then leaves the scope; (b) the select! macro over 2-3 receiving arms whose feeders fire at generated, often nearly equal, times; generated schedule. Non-trivial = at least one pre-emption AND (a) an event was polled with >= 2 arms present / (b) two arms became ready within 3 us. Distinct = distinct hash of (program, config, schedule).",
         units: &[Unit { fam: "cqueue", label: "cqueue", share: 1, strategy: cqueue::strategy }],
     },
     Prop {
         id: "C14",
-        quick: 6000,
+        quick: 12000,
         thorough: 200_000,
         rule: "scope family: an owner (thread or coroutine) runs coroutine::scope with 1-4 children (optionally with nested scopes and grandchildren), or join! inside a select arm of a cqueue scope (the arm is cancelled when the competing arm fires after a generated delay), or a cqueue scope with looping arms; children run 1-6 steps of yield/sleep/park_timeout and touch a frame borrowed from the owner; faults: the owner panics in the scope body after spawning, the owner is cancelled after a generated delay, a child panics; generated schedule. Non-trivial = the fault hit the owner (or the select arm) while at least one child was unfinished. Distinct = distinct hash of (program, config, schedule).",
         units: &[Unit { fam: "scope", label: "scope", share: 1, strategy: scope::strategy }],
     },
     Prop {
         id: "C01",
-        quick: 6000,
+        quick: 12000,
         thorough: 300_000,
         rule: "spawn family: a generated spawn tree of 1-16 coroutines (spawned by the main thread, by 0-2 user threads, or by other coroutines up to depth 3; builder options none/name/custom stack size (not pooled)/id (pinned queue); pool capacity 1-8) with bodies of yield/sleep/park_timeout/shared-mutex sections/spawns, ending in a value or a panic; spawners wait with join / wait()+join / is_done() polling / cancel+join; generated schedule. Non-trivial = >= 2 coroutines AND at least one pre-emption AND at least one coroutine was resumed on a different OS thread than before. Distinct = distinct hash of (program, config, schedule).",
         units: &[Unit { fam: "spawn", label: "spawn", share: 1, strategy: spawn::strategy }],
     },
     Prop {
         id: "C02",
-        quick: 6000,
+        quick: 12000,
         thorough: 300_000,
         rule: "park family: 1-3 parkers (coroutine::park / park_timeout(1h), or a fresh Blocker per round parked in thread or coroutine context with None / Some(1h)) over 1-6 rounds, 1-5 unparkers (thread/coroutine) that call unpark 1-3 times per round after the previous park has returned, immediately or after a generated delay; generated schedule. Non-trivial = at least one pre-emption AND an unpark completed before the park it serves began or overlapped it. Distinct = distinct hash of (program, config, schedule).",
         units: &[Unit { fam: "park", label: "park", share: 1, strategy: park::strategy }],
     },
     Prop {
         id: "C09",
-        quick: 6000,
+        quick: 12000,
         thorough: 300_000,
         rule: "cancel family: a target coroutine owning 0-3 drop-counted stack values (optionally holding a second Mutex) runs 1-4 distinct blocking operations out of park, sleep, Mutex::lock, Semphore::wait, Condvar::wait, mpsc/mpmc recv, join, SyncFlag::wait, RwLock::write, UnixStream::read, cqueue poll; a granter issues each awaited event after a generated delay; 0-2 bystanders wait on the same primitives; a canceller cancels the target at a generated time; generated schedule. Non-trivial = at least one pre-emption AND the target ended with Cancel AND (the cancel raced with a grant, or bystanders were present, or a pre-emption happened inside park.rs / cancel.rs). Distinct = distinct hash of (program, config, schedule).",
         units: &[Unit { fam: "cancel", label: "cancel", share: 1, strategy: cancel::strategy }],
     },
     Prop {
         id: "C05",
-        quick: 6000,
+        quick: 12000,
         thorough: 200_000,
         rule: "mutex family: 2-5 lockers (threads and coroutines mixed) with lock{0-2 schedule points inside}/try_lock/yield/sleep programs on one may::sync::Mutex, optional canceller actor cancelling coroutine lockers at generated times, generated schedule. Non-trivial = at least one pre-emption AND two lock() calls of different actors overlapped (contention). Distinct = distinct hash of (program, config, schedule). A quarter of the cases come from the condvar family (ticket protocol with cancellation): Mutex::lock with the cancel ignored is only reachable through the re-lock inside Condvar::wait.",
         units: &[
@@ -174,42 +179,42 @@ pub const PROPS: &[Prop] = &[
     },
     Prop {
         id: "C10",
-        quick: 6000,
+        quick: 12000,
         thorough: 200_000,
         rule: "sem family: Semphore::new(0..2) or SyncFlag, 2-6 users (thread/coroutine) with wait/wait_timeout(d)/try_wait/post(fire)/is_fired programs, a final poster supplying enough permits for every waiting call, optional canceller, generated schedule with stall faults. Non-trivial = at least one pre-emption AND a post overlapped a blocking wait. Distinct = distinct hash of (program, config, schedule).",
         units: &[Unit { fam: "sem", label: "sem", share: 1, strategy: sem::strategy }],
     },
     Prop {
         id: "C11",
-        quick: 6000,
+        quick: 12000,
         thorough: 200_000,
         rule: "condvar family: (a) ticket protocol on Mutex+Condvar with wait/wait_timeout(gives up on time-out)/wait_while waiters and a notifier that grants exactly as many tickets as there are waiting calls, each followed by notify_one (the last optionally by notify_all), optional canceller; (b) Barrier(1-5) over 1-4 generations; (c) WaitGroup with 0-4 holders dropping/cloning at generated points and 1-2 waiters. Non-trivial = at least one pre-emption AND a notify overlapped a wait (a) / >= 2 parties (b) / a drop overlapped a wait (c). Distinct = distinct hash of (program, config, schedule).",
         units: &[Unit { fam: "condvar", label: "condvar", share: 1, strategy: condvar::strategy }],
     },
     Prop {
         id: "C12",
-        quick: 6000,
+        quick: 12000,
         thorough: 200_000,
         rule: "rwlock family: 1-5 lockers (thread/coroutine) with read/write/try_read/try_write/write+panic programs (guards recovered from PoisonError with into_inner and used normally), optional canceller, generated schedule. Non-trivial = (a pre-emption AND two successful lock calls of different actors overlapped) OR a guard was obtained from a Poisoned error and dropped. Distinct = distinct hash of (program, config, schedule).",
         units: &[Unit { fam: "rwlock", label: "rwlock", share: 1, strategy: rwlock::strategy }],
     },
     Prop {
         id: "C08",
-        quick: 6000,
+        quick: 12000,
         thorough: 300_000,
         rule: "timed family: 1-5 actors (thread/coroutine), each one timed call out of sleep, mpsc/mpmc recv_timeout, Semphore/SyncFlag/Condvar wait_timeout, cqueue poll(Some(d)), Blocker::park(Some(d)), coroutine::park_timeout; duration from {0, sub-ms, fractional ms, whole ms, seconds, hours}; an event actor issues the awaited event never / before the call / in [0,2d] / within a few us of the deadline; generated schedule, 1/3 of the cases with stall faults. Non-trivial = >= 2 timers with different intervals pending, or an event within 1 ms of the deadline, or a timer removed early (event won), or a stall fault with a pre-emption. Distinct = distinct hash of (program, config, schedule).",
         units: &[Unit { fam: "timed", label: "timed", share: 1, strategy: timed::strategy }],
     },
     Prop {
         id: "C06",
-        quick: 6000,
+        quick: 12000,
         thorough: 300_000,
         rule: "chan family (mpsc/spsc/mpmc; 1-3 senders, 1-3 mpmc receivers, thread/coroutine endpoints, generated send/clone/drop and recv/try_recv/recv_timeout programs, generated schedule). Non-trivial = at least one pre-emption happened AND a send's call/return interval overlapped a blocking receive's interval. Distinct = distinct hash of (program, config, schedule).",
         units: &[Unit { fam: "chan", label: "delivery", share: 1, strategy: chan_c06 }],
     },
     Prop {
         id: "C07",
-        quick: 6000,
+        quick: 12000,
         thorough: 300_000,
         rule: "chan family biased to early drops of senders and receivers, few messages, several mpmc receivers. Non-trivial = at least one pre-emption happened AND the drop of the last sender overlapped a blocking receive of >= 1 receiver (>= 2 for mpmc), or a send overlapped a blocking receive. Distinct = distinct hash of (program, config, schedule).",
         units: &[Unit { fam: "chan", label: "disconnect", share: 1, strategy: chan_c07 }],
